@@ -2,7 +2,8 @@
 C06/C07 oracle.  It shares nothing with the library's parser or with the Coq model: the only input besides the
 bytes is the dump of the token tables (gen.tables_json()).
 
-    start     = version publicid charset strtbl body
+    start     = version publicid charset strtbl body        (WBXML 1.1 - 1.3)
+    start     = version publicid strtbl body                (WBXML 1.0: no charset field)
     strtbl    = length *byte
     body      = *pi element *pi
     element   = ([switchPage] stag) [ 1*attribute END ] [ *content END ]
@@ -146,9 +147,14 @@ def parse(data, tj, lang_id):
         doc.pubid_num, doc.pubid_index = None, r.mb()
     else:
         doc.pubid_num, doc.pubid_index = r.mb(), None
-    doc.charset = r.mb()
-    if doc.charset != 106:
-        raise Strict("charset %d is not UTF-8 (106)" % doc.charset)
+    if doc.version == 0:
+        # WBXML 1.0 (WAP-104 / WBXML 30-Apr-1998): start = version publicid strtbl body — the charset field was
+        # introduced by WBXML 1.1
+        doc.charset = None
+    else:
+        doc.charset = r.mb()
+        if doc.charset != 106:
+            raise Strict("charset %d is not UTF-8 (106)" % doc.charset)
     n = r.mb()
     doc.strtbl = r.take(n)
     if n and doc.strtbl[-1] != 0:
